@@ -488,13 +488,13 @@ func TestVerifStatusReplay(t *testing.T) {
 		t.Fatal(err)
 	}
 	defer os.RemoveAll(base)
-	rng := vRng()
+	_ = vRng()
 	for i := range scens {
 		sc := &scens[i]
 		id := i + 1
 		home := filepath.Join(base, fmt.Sprintf("rp%d", id))
 		read0 := suStartup(home)
-		port := 30000 + rng.Intn(20000)
+		port := vFreePort("tcp")
 		abort := make(chan struct{})
 		done := make(chan struct{})
 		go func() { defer close(done); RunClientUpdater(port, abort) }()
